@@ -205,8 +205,8 @@ func VerifK16cResolverIsolation() {
 	}()
 	go func() {
 		defer wg.Done()
-		<-ds.started      // the first store's datastore lookup is in flight
-		close(ds.issued)  // ... and may complete once this request is on its way
+		<-ds.started     // the first store's datastore lookup is in flight
+		close(ds.issued) // ... and may complete once this request is on its way
 		ts2, err2 = resolve(ctx, second, ask(second))
 	}()
 	wg.Wait()
